@@ -24,7 +24,7 @@ Mk(hi, lo) == IF hi >= 32768 THEN (hi - 65536) * 65536 + lo ELSE hi * 65536 + lo
 Band(x, y) == Mk(Hi(x) & Hi(y), Lo(x) & Lo(y))
 Bor(x, y)  == Mk(Hi(x) | Hi(y), Lo(x) | Lo(y))
 Bxor(x, y) == Mk(Hi(x) ^^ Hi(y), Lo(x) ^^ Lo(y))
-Bnot(x)    == -x - 1
+Bnot(x)    == -1 - x                        \* (= -x - 1, written so that x = MinInt does not overflow TLC's ints)
 
 \* ---- wrap-around arithmetic (unsigned semantics, also signed when defined)
 AddW(x, y) == LET lo == Lo(x) + Lo(y)
@@ -91,4 +91,13 @@ TDiv(a, b) == IF b > 0 THEN TDivP(a, b)
               ELSE -TDivP(a, -b)
 TMod(a, b) == a - b * TDiv(a, b)
 DivOK(a, b) == b # 0 /\ ~(a = MinInt /\ b = -1)
+\* ---- additions for C24 (unsigned definedness; nothing above is changed) ----
+UMax32 == -1                                 \* the signed twin of 2^32-1
+\* unsigned product fits 32 bits (UEXP is a float-to-unsigned conversion: it does not wrap)
+UMulOK(a, b) == b = 0 \/ ULe(a, UDiv(UMax32, b))
+\* unsigned sum fits 32 bits (URANGE stepping must not wrap inside the defined domain)
+UAddOK(a, b) == ULe(a, SubW(UMax32, b))
+\* number of significant bits of a non-negative int (0 for 0)
+RECURSIVE BitLen(_)
+BitLen(x) == IF x = 0 THEN 0 ELSE 1 + BitLen(x \div 2)
 =============================================================================
